@@ -55,7 +55,9 @@ pub fn generate(input: MatchingInput) -> proc_macro2::TokenStream {
     let mut global_guards = vec![];
 
     if let Some((_, expr)) = input.guard {
-        global_guards.push(quote! { #expr });
+        // parenthesised: the guard is joined with the eq!/ne! comparisons by `&&`,
+        // which would otherwise bind tighter than a top-level `||` of the user's guard
+        global_guards.push(quote! { (#expr) });
     }
 
     let mut local_counter: usize = 0;
